@@ -4,6 +4,7 @@ import (
 	"fmt"
 	"go/constant"
 	"go/token"
+	"go/types"
 	"regexp"
 	"strings"
 
@@ -404,6 +405,91 @@ func runC14(c *Ctx) {
 		})
 		r.Add(core.Obligation{Rule: "router-fields", Key: "router-fields every valid advertisement reaches the table", Func: core.FuncName(pp), Pos: c.P.Pos(core.PosOf(site.(ssa.Instruction))), Status: us,
 			Basis: "every path from the advertisement's IsValid to a nil return passes findOrCreateRouter", Detail: det})
+	}
+	// an option that is refused leaves no trace: in every option decoder (`unmarshal` with a pointer receiver in
+	// layer_icmp6_options.go) no store into the receiver can be followed by a return of an error. The caller logs the
+	// error and keeps the option struct, so a field written before the refusal is recorded for an option that a
+	// reference decoder ignores.
+	r.Rule("option-atomic", "an NDP option decoder whose refusal the caller survives writes its receiver only on paths that accept the option", 4)
+	for _, fn := range c.P.LibFunctions() {
+		if fn.Pkg == nil || fn.Pkg.Pkg.Name() != "packet" || fn.Name() != "unmarshal" || fn.Signature.Recv() == nil || len(fn.Params) == 0 {
+			continue
+		}
+		if !strings.Contains(c.P.Pos(fn.Pos()), "layer_icmp6_options.go") {
+			continue
+		}
+		if _, isPtr := fn.Params[0].Type().Underlying().(*types.Pointer); !isPtr {
+			continue
+		}
+		// only where a caller goes on with the receiver after a refusal: the error branch of the call does not return
+		kept := false
+		if node := c.P.CallGraph().Nodes[fn]; node != nil {
+			for _, in := range node.In {
+				call, ok := in.Site.(*ssa.Call)
+				if !ok || call.Call.StaticCallee() != fn {
+					continue
+				}
+				for _, ref := range *call.Referrers() {
+					bo, ok := ref.(*ssa.BinOp)
+					if !ok || bo.Op != token.NEQ {
+						continue
+					}
+					for _, r2 := range *bo.Referrers() {
+						iff, ok := r2.(*ssa.If)
+						if !ok {
+							continue
+						}
+						onErr := iff.Block().Succs[0]
+						if _, isRet := onErr.Instrs[len(onErr.Instrs)-1].(*ssa.Return); !isRet {
+							kept = true
+						}
+					}
+				}
+			}
+		}
+		if !kept {
+			continue
+		}
+		var errRets []ssa.Instruction
+		core.EachInstr(fn, func(i ssa.Instruction) {
+			if ret, ok := i.(*ssa.Return); ok && len(ret.Results) > 0 {
+				last := ret.Results[len(ret.Results)-1]
+				if cst, isC := last.(*ssa.Const); !isC || !cst.IsNil() {
+					errRets = append(errRets, i)
+				}
+			}
+		})
+		recvRooted := func(a ssa.Value) bool {
+			for {
+				switch x := a.(type) {
+				case *ssa.FieldAddr:
+					a = x.X
+				case *ssa.IndexAddr:
+					a = x.X
+				default:
+					return a == ssa.Value(fn.Params[0])
+				}
+			}
+		}
+		kga := core.NewKeyGen()
+		n := 0
+		core.EachInstr(fn, func(i ssa.Instruction) {
+			st, ok := i.(*ssa.Store)
+			if !ok || !recvRooted(st.Addr) {
+				return
+			}
+			n++
+			status, det := core.Proved, ""
+			for _, ret := range errRets {
+				if reachesWithout(i, ret, func(ssa.Instruction) bool { return false }) {
+					status = core.Violated
+					det = core.FuncName(fn) + " writes " + norm(st.Addr) + " at " + c.P.Pos(core.PosOf(i)) + " and can still refuse the option at " + c.P.Pos(core.PosOf(ret)) + ": the RA option parser logs the refusal and keeps the struct, so the router table records a field of an option that a reference decoder ignores"
+					break
+				}
+			}
+			r.Add(core.Obligation{Rule: "option-atomic", Key: strings.TrimSuffix(kga.Key("option-atomic "+core.FuncName(fn)+" "+norm(st.Addr)), "#0"), Func: core.FuncName(fn), Pos: c.P.Pos(core.PosOf(i)), Status: status,
+				Basis: "no error return is reachable from the store", Detail: det})
+		})
 	}
 	// a parity test decides something: its operand is not a multiple of an even constant (x*8 % 2 is always 0, the test is
 	// dead and an RDNSS option with an even Length - one server and eight stray octets - is recorded where a reference
